@@ -87,6 +87,12 @@ theorem inv2_close {cfg : Cfg} {s s' : State} (h1 : Inv1 cfg s) (hi : Inv2 cfg s
   obtain ⟨a1, a2, g1, d_ne, d_wait, d_full, d_end, u2, u4, u5⟩ := hi
   unfold_step at h <;> (repeat' split at h) <;> cases h <;> close_inv2
 
+theorem inv2_bgEnds {cfg : Cfg} {s s' : State} (h1 : Inv1 cfg s) (hi : Inv2 cfg s)
+    (h : step good cfg s (.bgEnds) = some s') : Inv2 cfg s' := by
+  obtain ⟨c1, t1a, t_set, t_ne, t_len, t_armed, t_fired, n1, n2, u0, u3, u1⟩ := h1
+  obtain ⟨a1, a2, g1, d_ne, d_wait, d_full, d_end, u2, u4, u5⟩ := hi
+  unfold_step at h <;> (repeat' split at h) <;> cases h <;> close_inv2
+
 theorem inv2_prodCancelled {cfg : Cfg} {s s' : State} (h1 : Inv1 cfg s) (hi : Inv2 cfg s)
     (h : step good cfg s (.prodCancelled) = some s') : Inv2 cfg s' := by
   obtain ⟨c1, t1a, t_set, t_ne, t_len, t_armed, t_fired, n1, n2, u0, u3, u1⟩ := h1
@@ -192,6 +198,7 @@ theorem inv2_step {cfg : Cfg} {s s' : State} {l : Label} (h1 : Inv1 cfg s) (hi :
   | ctxExpire => exact inv2_ctxExpire h1 hi h
   | tick d => exact inv2_tick d h1 hi h
   | close => exact inv2_close h1 hi h
+  | bgEnds => exact inv2_bgEnds h1 hi h
   | prodCancelled => exact inv2_prodCancelled h1 hi h
   | prodSend => exact inv2_prodSend h1 hi h
   | prodSendCancel => exact inv2_prodSendCancel h1 hi h
